@@ -27,7 +27,7 @@ class C20(object):
                    'exogenous variables are lists/tuples/list expressions (the template slices them)',
                    'tolerance line 1e-6..1e-9, default cap 400 of the template']
     required_counters = ('module.ran', 'equations_judged', 'vs_inprocess.compared', 'header.judged',
-                         'module.without_user_time')
+                         'module.without_user_time', 'generator.reused')
 
     def n_cases(self, tier):
         return 120 if tier == 'quick' else 6000
@@ -41,8 +41,21 @@ class C20(object):
                 e['text'] = repr(e['values'])
         for s in spec['simul']:
             spec['ics'][s['name']] = G.nice(rng, -3.0, 9.0)
+        for c in spec['consts']:
+            if rng.random() < 0.6:
+                spec['ics'][c['name']] = c['value'] + rng.choice([1.0, -0.5, 2.0])   # k=0 differs from the literal
         spec['style']['comments'] = False
-        return {'kind': 'block', 'spec': spec, 'text': G.render(spec), 'gen_reduction': rng.random() < 0.5}
+        case = {'kind': 'block', 'spec': spec, 'text': G.render(spec), 'gen_reduction': rng.random() < 0.5,
+                'reuse': rng.choice([None, None, 'main_twice', 'other_block_first', 'generate_equations_first'])}
+        if case['reuse'] == 'other_block_first':
+            other = G.gen_affine(rng, rho=0.5, tol=1e-8, maxtime=rng.randint(1, 4), ics=False)
+            for e in other['exos']:
+                if e['form'] == 'scalar':
+                    e['form'] = 'list'
+                    e['text'] = repr(e['values'])
+            other['style']['comments'] = False
+            case['other_text'] = G.render(other)
+        return case
 
     def run_case(self, case):
         from sfc_models.deprecated.iterative_machine_generator import IterativeMachineGenerator
@@ -57,8 +70,21 @@ class C20(object):
         try:
             try:
                 with contextlib.redirect_stdout(io.StringIO()):
-                    gen = IterativeMachineGenerator(case['text'], run_equation_reduction=case['gen_reduction'])
+                    reuse = case.get('reuse')
+                    if reuse == 'other_block_first':
+                        # one generator object emitting more than one module
+                        gen = IterativeMachineGenerator(case['other_text'], run_equation_reduction=case['gen_reduction'])
+                        gen.main(os.path.join(tmp, 'first_module.py'))
+                        gen.ParseString(case['text'])
+                    else:
+                        gen = IterativeMachineGenerator(case['text'], run_equation_reduction=case['gen_reduction'])
+                    if reuse == 'main_twice':
+                        gen.main(os.path.join(tmp, 'first_module.py'))
+                    elif reuse == 'generate_equations_first':
+                        gen.GenerateEquations()
                     gen.main(path)
+                    if reuse:
+                        rec.count('generator.reused')
             except Exception as e:
                 rec.violate('generator_failed', {'err': repr(e)[:300], 'text': case['text']})
                 return self.done(rec, shape, False)
